@@ -4,9 +4,9 @@ from mc import worlds as W
 from mc.monitors2 import MetaRefs
 
 LEVEL = 'model_checking'
-NAMES = ['W_schema', 'W_sum', 'W_2way']
-D = W.depths_for(NAMES, quick=2, thorough=3, overrides={'quick': {'W_sum': 1, 'W_2way': 1},
-                                                         'thorough': {'W_sum': 2, 'W_2way': 2}})
+NAMES = ['W_schema', 'W_sum', 'W_2way', 'W_sumsum']
+D = W.depths_for(NAMES, quick=2, thorough=3, overrides={'quick': {'W_sum': 1, 'W_2way': 1, 'W_sumsum': 1},
+                                                         'thorough': {'W_sum': 2, 'W_2way': 2, 'W_sumsum': 2}})
 P = HistProp('C09', lambda t: W.make(NAMES), lambda w, t: [MetaRefs()], D,
              rule='all histories of table/column/view/section/field/summary actions incl. removals; '
                   'after every successful bundle: columns->table, fields->section and a column of '
